@@ -662,6 +662,8 @@ func runPlan(p Plan) (vk.Outcome, error) {
 		return run(tk.StructKeys, p)
 	case "ptr":
 		return run(tk.PtrKeys, p)
+	case "bytes":
+		return run(tk.BytesKeys, p)
 	}
 	return vk.Outcome{}, fmt.Errorf("bad keys")
 }
